@@ -32,6 +32,17 @@ def classify(c):
         # resolver answers (merged data, keep=True): both originals are renamed to .conflicted and the merged file is
         # created on both sides; the new files are seen as a fresh create/create conflict and the cycle repeats
         return "G4-merged-keep-never-quiesces"
+    if c["property"] == "C07":
+        kinds = [op[0] for _, op in ops]
+        paths = [op[1] for _, op in ops]
+        if kinds == ["write", "write"] and paths[0] == paths[1]:
+            # die right after the engine uploaded v1 (not yet recorded); the user writes v2 while it is down: after the
+            # restart both sides differ from the recorded hash -> treated as a two-sided conflict -> .conflicted artefact
+            return "G6-crash-after-upload-then-newer-edit"
+        if kinds == ["write", "rename"] and paths[0] == paths[1]:
+            # same instant, then the user renames the file: the equal-content conflict is merged by recording the
+            # CURRENT paths of both sides as synced (manager.handle_split_conflict), which swallows the pending rename
+            return "G7-equal-content-merge-swallows-rename"
     # folder renames present?
     folder_renames = [(s, op) for s, op in ops if op[0] == "rename" and op[1] in ("d", "e", "e/f")]
     for s, fr in folder_renames:
